@@ -118,6 +118,10 @@ class Monitor:
     def _stk(self, obs: Dict[str, Any]) -> bytes:
         return bytes.fromhex(obs["stk"])
 
+    def after_deferral(self) -> str:
+        return (" after a delivery was deferred while the stack pointer was not yet initialised"
+                if self.deferred_boundaries else "")
+
     def after_reset(self) -> str:
         return " after a handler ended with RESET instead of RETI" if self.reset_in_handler else ""
 
@@ -157,6 +161,22 @@ class Monitor:
         reti_frame: Optional[Dict[str, Any]] = None
         in_handler0 = bool(self.frames)        # a handler is active at the start of this step
         off_mode = B["pw"] != 0 and (self.lp == "OFF" or B["pw"] == 2)
+
+        # requests that are enabled and pending at the boundary this step starts from (bounded response, see the end)
+        elig = 0
+        if B["pw"] != 2 and not off_mode and ctx in ("main", "halt") and not in_handler0 and (B["imr"] & 0x80):
+            elig = B["imr"] & B["isr"] & 0x0F
+        if B["s"] < 5:
+            # Round 5: both step loops document that a delivery is deferred while the system stack pointer is not yet
+            # initialised (S < 5: "IRQ deferred: stack pointer not initialized"); no obligation at such a boundary --
+            # the obligation (sentence 2: not lost, taken promptly) starts at the first boundary with a usable S.
+            if elig:
+                self.deferred_boundaries += 1
+                self.labels.add("enabled-request-pending-while-stack-pointer-uninitialised")
+            elig = 0
+        elif self.deferred_boundaries and elig and not self.deferred_then_valid:
+            self.deferred_then_valid = True
+            self.labels.add("deferred-request-still-pending-once-stack-pointer-valid")
 
         # ---------------- low power at the start of the step
         if B["pw"] != 0:
@@ -498,7 +518,7 @@ class Monitor:
             if stuck:
                 self.v("not-lost", ctx,
                        f"timer {_names(stuck)} is overdue by the model's own cycle counter but did not expire in a step "
-                       "outside any handler" + self.after_reset(),
+                       "outside any handler" + self.after_reset() + self.after_deferral(),
                        f"step {k}: cycles {B['cyc']}->{A['cyc']} next_mti {B['nm']}->{A['nm']} next_sti {B['ns']}->{A['ns']} "
                        f"ISR {B['isr']:#04x}->{A['isr']:#04x} IMR={A['imr']:#04x} model in-interrupt={B['inint']}->{A['inint']} "
                        f"instr={executed['kind'] if executed else None}")
@@ -542,20 +562,6 @@ class Monitor:
                     self.labels.add("still-pending-after-reti")
 
         # ---------------- bounded response for enabled pending requests
-        elig = 0
-        if B["pw"] != 2 and not off_mode and ctx in ("main", "halt") and not in_handler0 and (B["imr"] & 0x80):
-            elig = B["imr"] & B["isr"] & 0x0F
-        if B["s"] < 5:
-            # Round 5: both step loops document that a delivery is deferred while the system stack pointer is not yet
-            # initialised (S < 5: "IRQ deferred: stack pointer not initialized"); no obligation at such a boundary --
-            # the obligation (sentence 2: not lost, taken promptly) starts at the first boundary with a usable S.
-            if elig:
-                self.deferred_boundaries += 1
-                self.labels.add("enabled-request-pending-while-stack-pointer-uninitialised")
-            elig = 0
-        elif self.deferred_boundaries and elig and not self.deferred_then_valid:
-            self.deferred_then_valid = True
-            self.labels.add("deferred-request-still-pending-once-stack-pointer-valid")
         for bit in list(self.req):
             if delivered_here:
                 self.req[bit][0] = 0
@@ -565,6 +571,8 @@ class Monitor:
                 if self.req[bit][0] >= BOUND:
                     why = (" after a delivery for another source intervened while it was masked"
                            if self.req[bit][1] else "") + self.after_reset()
+                    if not self.req[bit][1]:
+                        why += self.after_deferral()
                     self.v("not-lost", ctx, f"enabled pending request {_names(bit)} not taken within {BOUND} step boundaries" + why,
                            f"step {k}: IMR={B['imr']:#04x} ISR={B['isr']:#04x} model pending-flag={B['pend']} in-interrupt={B['inint']}")
                     self.req.pop(bit, None)
